@@ -3,6 +3,7 @@ package all
 
 import (
 	_ "package-operator.run/internal/packages/zzverif/checks/c01"
+	_ "package-operator.run/internal/packages/zzverif/checks/c02"
 	_ "package-operator.run/internal/packages/zzverif/checks/c03"
 	_ "package-operator.run/internal/packages/zzverif/checks/c04"
 	_ "package-operator.run/internal/packages/zzverif/checks/c05"
